@@ -526,6 +526,43 @@ func (e *c11E2E) base(variant string) bool {
 			e.pall[v] = ps
 		}
 	}
+	// P_all must not depend on how "all" is requested: a second copy asks for it through a root
+	// staticcheck.conf instead of the flag. A difference is a genuine disagreement of the two
+	// selection paths (reported); the union is used from here on.
+	{
+		lv := [3]c11Level{c11L("all")}
+		d2, err := e.treeDir(v, lv)
+		if err != nil {
+			res.NotExhaustive("cannot write the module: " + err.Error())
+			return false
+		}
+		c2 := c11CaseB{Part: "B", Variant: v, Levels: lv, ShowIgnored: true}
+		r := c11Exec(e.bin, d2, e.cacheDir(0), c11Args(c2, "json")...)
+		e.runs.Add(1)
+		ps2, err := c11ParseJSON(d2, r.stdout)
+		if err != nil {
+			res.Note("base run (conf): %v; stdout=%q stderr=%q", err, clip(r.stdout), clip(r.stderr))
+			res.NotExhaustive("base run of the generated module not parseable")
+			return false
+		}
+		for i := range ps2 {
+			ps2[i].Ignored = ps2[i].sev == "ignored"
+		}
+		a, b := c11IDs(e.pall[v]), c11IDs(ps2)
+		if !c11SameIDs(a, b) {
+			onlyFlag, onlyConf := c11SetDiff(a, b)
+			e.env.violate("e2e:base:"+v+":-checks=all-vs-conf-checks=[all]", fmt.Sprintf("on the same conf-free module, `-checks=all` and a root staticcheck.conf with checks = [\"all\"] (no flag) print different problems: only with the flag %q; only with the conf file %q", onlyFlag, onlyConf), c2)
+			have := map[string]bool{}
+			for _, p := range e.pall[v] {
+				have[p.id()] = true
+			}
+			for _, p := range ps2 {
+				if !have[p.id()] {
+					e.pall[v] = append(e.pall[v], p)
+				}
+			}
+		}
+	}
 	// sanity of the generator: the module must contain what the case design relies on
 	need := map[string]bool{"SA4006": false, "SA4000": false, "S1000": false, "S1002": false, "ST1000": false, "ST1017": false, "U1000": false, "SA4009": false, "S1005": false}
 	files := map[string]bool{}
